@@ -327,12 +327,13 @@ fn picture_token_limit() {
 }
 
 pub fn stub_try_format(_args: fmt::Arguments<'_>) -> Result<String> {
-    Ok(String::new())
+    // the error text is never built: the caller's `?` passes this unit variant on (only Ok / Err is observed)
+    Err(Error::NumericOverflow)
 }
 
 /// error texts are not part of any property: the allocation-fallible copy is replaced by an empty string
 pub fn stub_try_to_string(_s: &str) -> Result<String> {
-    Ok(String::new())
+    Err(Error::DivideByZero)
 }
 
 // =========================================================================================
@@ -1415,7 +1416,7 @@ fn parse_one_check<T: DateTimeFormat>() {
     kani::assume(len <= TXT);
     let mut i = 0;
     while i < TXT { kani::assume(bytes[i] < 128); i += 1; }     // ASCII: the parser takes &str
-    let text = core::str::from_utf8(&bytes[..len]).unwrap();
+    let text = unsafe { core::str::from_utf8_unchecked(&bytes[..len]) };   // ASCII by assumption
     let want = ref_parse_one::<T>(&f, &bytes[..len], c[0] as i64, c[1]);
     let uses_clock_ok = true;
     let fmt = one_field(f);
@@ -1439,7 +1440,10 @@ macro_rules! parse_harness {
         #[kani::stub(crate::util::try_format, stub_try_format)]
         #[kani::stub(<str as crate::util::StrExt>::try_to_string, stub_try_to_string)]
         #[kani::stub(crate::common::date2julian, crate::kverif::date2julian_by_contract)]
-        #[kani::stub(chrono::Local::now, crate::kverif::stub_now)]
+        #[kani::stub(chrono::Local::now, crate::kverif::stub_now_fixed)]
+        #[kani::stub(<chrono::NaiveDateTime as chrono::Datelike>::year, crate::kverif::clock_year)]
+        #[kani::stub(<chrono::NaiveDateTime as chrono::Datelike>::month, crate::kverif::clock_month)]
+        #[kani::stub(<chrono::NaiveDateTime as chrono::Datelike>::day, crate::kverif::clock_day)]
         fn $name() { parse_one_check::<$t>(); }
     };
 }
@@ -1479,7 +1483,7 @@ fn pow10(n: usize) -> i64 {
     r
 }
 
-fn scan_err<X>() -> Result<X> { Err(Error::ParseError(String::new())) }
+fn scan_err<X>() -> Result<X> { Err(Error::InvalidNumber) }
 
 /// contract of parse_number: Err if the input is empty (or has no digit); Ok: a sign and 1..=max_len digits consumed
 pub fn parse_number_oracle(input: &[u8], max_len: usize) -> Result<(bool, i32, &[u8])> {
@@ -1747,16 +1751,21 @@ fn ref_glue<T: DateTimeFormat>(fields: &[Field], n: usize, text: &[u8], cy: i64,
 }
 
 fn parse_glue_check<T: DateTimeFormat>(maxn: usize) {
-    let c = crate::kverif::set_any_clock(false);
     let n: usize = kani::any();
     kani::assume(n >= 1 && n <= maxn);
     let fs: [Field; PICN] = [any_field(), any_field(), any_field()];
+    parse_glue_run::<T>(fs, n);
+}
+
+/// the same check on a given (concrete or symbolic) picture
+fn parse_glue_run<T: DateTimeFormat>(fs: [Field; PICN], n: usize) {
+    let c = crate::kverif::set_any_clock(false);
     let bytes: [u8; GTXT] = kani::any();
     let len: usize = kani::any();
     kani::assume(len <= GTXT);
     let mut i = 0;
     while i < GTXT { kani::assume(bytes[i] < 128); i += 1; }
-    let text = core::str::from_utf8(&bytes[..len]).unwrap();
+    let text = unsafe { core::str::from_utf8_unchecked(&bytes[..len]) };   // ASCII by assumption
     // the year the scanners may hand back is bounded by the scanner contract; the day-of-year table needs a sane year
     let mut fields = StackVec::new();
     i = 0;
@@ -1777,6 +1786,7 @@ fn parse_glue_check<T: DateTimeFormat>(maxn: usize) {
     let fmt = Formatter { fields, format_exact: false };
     unsafe { K_LOG_LEN = 0; }
     let got: Result<Probe<T>> = fmt.parse_internal::<&str, Probe<T>, false>(text);
+    assert!(!matches!(&got, Err(Error::ParseError(_))));    // no error text is ever built under the stubs
     let mut rp = Replay { at: 0, bad: false };
     let want = ref_glue::<T>(&fs, n, &bytes[..len], c[0] as i64, c[1], &mut rp);
     match want {
@@ -1798,7 +1808,10 @@ macro_rules! parse_glue_harness {
         #[kani::unwind(13)]
         #[kani::stub(crate::util::try_format, stub_try_format)]
         #[kani::stub(crate::common::date2julian, crate::kverif::date2julian_by_contract)]
-        #[kani::stub(chrono::Local::now, crate::kverif::stub_now)]
+        #[kani::stub(chrono::Local::now, crate::kverif::stub_now_fixed)]
+        #[kani::stub(<chrono::NaiveDateTime as chrono::Datelike>::year, crate::kverif::clock_year)]
+        #[kani::stub(<chrono::NaiveDateTime as chrono::Datelike>::month, crate::kverif::clock_month)]
+        #[kani::stub(<chrono::NaiveDateTime as chrono::Datelike>::day, crate::kverif::clock_day)]
         #[kani::stub(parse_number, parse_number_oracle)]
         #[kani::stub(parse_fraction, parse_fraction_oracle)]
         #[kani::stub(parse_ampm, parse_ampm_oracle)]
@@ -1810,6 +1823,43 @@ macro_rules! parse_glue_harness {
         fn $name() { parse_glue_check::<$t>($n); }
     };
 }
+macro_rules! parse_picture_harness {
+    ($name:ident, $t:ty, $n:expr, $f1:expr, $f2:expr, $f3:expr) => {
+        #[kani::proof]
+        #[kani::unwind(13)]
+        #[kani::stub(crate::util::try_format, stub_try_format)]
+        #[kani::stub(crate::common::date2julian, crate::kverif::date2julian_by_contract)]
+        #[kani::stub(chrono::Local::now, crate::kverif::stub_now_fixed)]
+        #[kani::stub(<chrono::NaiveDateTime as chrono::Datelike>::year, crate::kverif::clock_year)]
+        #[kani::stub(<chrono::NaiveDateTime as chrono::Datelike>::month, crate::kverif::clock_month)]
+        #[kani::stub(<chrono::NaiveDateTime as chrono::Datelike>::day, crate::kverif::clock_day)]
+        #[kani::stub(parse_number, parse_number_oracle)]
+        #[kani::stub(parse_fraction, parse_fraction_oracle)]
+        #[kani::stub(parse_ampm, parse_ampm_oracle)]
+        #[kani::stub(parse_month_name, parse_month_name_oracle)]
+        #[kani::stub(parse_week_day_name, parse_week_day_name_oracle)]
+        #[kani::stub(parse_week_day_number, parse_week_day_number_oracle)]
+        #[kani::stub(eat_whitespaces, eat_whitespaces_oracle)]
+        #[kani::stub(<str as crate::util::StrExt>::try_to_string, stub_try_to_string)]
+        fn $name() { parse_glue_run::<$t>([$f1, $f2, $f3], $n); }
+    };
+}
+// concrete pictures (quick tier): the field loop on the layouts users actually write
+parse_picture_harness!(parse_pic_date_yyyy_ddd, Date, 3, Field::Year(4), Field::Blank(1), Field::DayOfYear);
+parse_picture_harness!(parse_pic_date_mm_dd, Date, 3, Field::Month, Field::Hyphen, Field::Day);
+parse_picture_harness!(parse_pic_date_dy_dd, Date, 3, Field::DayName(NameStyle::AbbrUpper), Field::Comma, Field::Day);
+parse_picture_harness!(parse_pic_date_yy_mon, Date, 3, Field::Year(2), Field::Slash, Field::MonthName(NameStyle::AbbrCapital));
+parse_picture_harness!(parse_pic_time_hh_am, Time, 3, Field::Hour12, Field::Blank(1), Field::AmPm(AmPmStyle::Upper));
+parse_picture_harness!(parse_pic_time_am_hh, Time, 3, Field::AmPm(AmPmStyle::LowerDot), Field::Blank(1), Field::Hour12);
+parse_picture_harness!(parse_pic_time_hh24_mi, Time, 3, Field::Hour24, Field::Colon, Field::Minute);
+parse_picture_harness!(parse_pic_time_ss_ff, Time, 3, Field::Second, Field::Dot, Field::Fraction(None));
+parse_picture_harness!(parse_pic_ts_ddd_d, Timestamp, 3, Field::DayOfYear, Field::Blank(1), Field::DayOfWeek);
+parse_picture_harness!(parse_pic_ts_hh24_am, Timestamp, 2, Field::Hour24, Field::AmPm(AmPmStyle::Upper), Field::Blank(1));
+parse_picture_harness!(parse_pic_ym_yyyy_mm, IntervalYM, 3, Field::Year(4), Field::Hyphen, Field::Month);
+parse_picture_harness!(parse_pic_dt_dd_hh24, IntervalDT, 3, Field::Day, Field::Blank(1), Field::Hour24);
+parse_picture_harness!(parse_pic_dt_mi_ss, IntervalDT, 3, Field::Minute, Field::Colon, Field::Second);
+parse_picture_harness!(parse_pic_date_dup_month, Date, 3, Field::Month, Field::Blank(1), Field::MonthName(NameStyle::Upper));
+
 parse_glue_harness!(parse_glue1_date_bounded, Date, 1);
 parse_glue_harness!(parse_glue1_time_bounded, Time, 1);
 parse_glue_harness!(parse_glue1_timestamp_bounded, Timestamp, 1);
@@ -1954,3 +2004,4 @@ fn token_roundtrip_year_fraction() {
     let (back, rem) = r.unwrap();
     assert!(back == us && rem.is_empty());
 }
+
